@@ -64,8 +64,9 @@ type World struct {
 	Cfg  Cfg
 	Root string // private scratch directory (removed by Destroy)
 	Dir  string // data directory
-	// DirSuffix: how the caller spells the directory in Options.DirPath ("" or a trailing separator)
-	DirSuffix string
+	// DirSpell: how the caller spells the directory in Options.DirPath: 0 clean, 1 trailing separator, 2 trailing
+	// "/.", 3 a "/./" in the middle (all name the same directory)
+	DirSpell int
 	// BackgroundMerge: Options.EnableBackgroundMerge (the engine's own timer-driven Merge goroutine)
 	BackgroundMerge bool
 	DB              *kv.DB
@@ -103,6 +104,20 @@ func NewWorld(cfg Cfg, keys []string) *World {
 	w := &World{Cfg: cfg, Root: root, Dir: filepath.Join(root, "db"), Model: map[string]string{}, Keys: keys,
 		Cnt: map[string]int64{}, Hist: map[string]map[string]bool{}}
 	return w
+}
+
+// spelledDir is Options.DirPath as this caller spells it.
+func (w *World) spelledDir() string {
+	sep := string(filepath.Separator)
+	switch w.DirSpell {
+	case 1:
+		return w.Dir + sep
+	case 2:
+		return w.Dir + sep + "."
+	case 3:
+		return filepath.Dir(w.Dir) + sep + "." + sep + filepath.Base(w.Dir)
+	}
+	return w.Dir
 }
 
 // Destroy closes (best effort) and removes everything.
@@ -171,7 +186,7 @@ func (w *World) OpenWith(c Cfg) error {
 	var db *kv.DB
 	err := w.guard(func() error {
 		var e error
-		o := c.options(w.Dir + w.DirSuffix)
+		o := c.options(w.spelledDir())
 		o.EnableBackgroundMerge = w.BackgroundMerge
 		db, e = kv.Open(o)
 		return e
@@ -706,13 +721,15 @@ func (w *World) Apply(op Op) ApplyResult {
 		if err := w.Close(); err != nil {
 			return ApplyResult{Err: err, Clause: "close-error", Detail: "Close: " + panicDetail(err)}
 		}
-		if w.DirSuffix == "" {
-			w.DirSuffix = string(filepath.Separator)
+		if op.Arg > 0 {
+			w.DirSpell = op.Arg // restartslash(k): spelling k
+		} else if w.DirSpell == 0 {
+			w.DirSpell = 1
 		} else {
-			w.DirSuffix = ""
+			w.DirSpell = 0
 		}
 		if err := w.Open(); err != nil {
-			return ApplyResult{Err: err, Clause: "open-error", Detail: fmt.Sprintf("Open(DirPath %q) after clean Close: %s", "db"+w.DirSuffix, panicDetail(err))}
+			return ApplyResult{Err: err, Clause: "open-error", Detail: fmt.Sprintf("Open(DirPath %q) after clean Close: %s", w.spelledDir(), panicDetail(err))}
 		}
 		return ApplyResult{}
 	case "restartfs": // clean restart that reopens the directory with another DataFileSize (arg)
